@@ -7,7 +7,7 @@ FILES = ['src/urcu.c', 'src/urcu-qsbr.c', 'src/urcu-wait.h', 'include/urcu/stati
 PROGS = ['(r)(q)/SS', '(r)(q)/S/S/S', '(r)/(q)/SS', '(r)(r)/S/S', '((r))(q)/SS/S']
 QPROGS = ['QQ/SS', 'FNQ/S', 'rFNr/S/S/S', 'rQqFNr/SS', 'FNrQ/qQqQ/S/S']
 TRUSTED = ['Coq 8.16.1 kernel; no axioms; the wait-node invariant is closed under every choice by case analysis inside Coq (finite state space), lifted by induction',
-           'conformance automaton and oracles: tools/props/C02.py (trusted)', 'harness: sched.c futex emulation (EAGAIN, spurious, EINTR, ENOSYS choices), store buffers',
+           'conformance automaton and oracles: tools/props/C02.py (trusted)', 'harness: sched.c futex emulation (EAGAIN, spurious wake-up, EINTR, ENOSYS for every call or spuriously for one FUTEX_WAIT), store buffers',
            'modelled: kernel futex semantics; the futex model has RCU_QS_ACTIVE_ATTEMPTS = 1 and no phases (phases only make the scan pass more often); '
            'qsbr `waiting` flag handshake and compat (ENOSYS) path: oracle only, no theorem yet; OS scheduler fairness is not modelled (progress = no stuck state + bounded solo completion)']
 
@@ -66,13 +66,14 @@ def gen(ctx, progs, n):
             for j in (0, 2, 5):
                 out.append((prog, '1b' * k + '>2' + '!2' + '2c' * j + '>1>2>1>2'))
                 out.append((prog, '0a' * 4 + '1b' * k + '>2' + '>1' + '!1' + '1b' * j + '!2' + '>0>0>1>2'))
+                if j == 0: out.append((prog, '~2~1' + '0a' * 4 + '1b' * k + '>2' + '>1' + '>0>0>1>2>1>2'))     # spurious ENOSYS of the sleepers' FUTEX_WAIT (compat fallback must cope with wakes that reach the kernel)
     nrand = len(out) + max(n // 2, 150)        # the random part is always present, whatever the size of the sweeps
     while len(out) < nrand:
         prog = ctx.rng.choice(progs); th = [str(i) for i in range(prog.count('/') + 1)]
         s = bursty(ctx.rng, th, lo=60, hi=500, flush=ctx.rng.choice([0.05, 0.2, 0.4]), means=(1, 3, 10, 30), spurious=ctx.rng.choice([0.0, 0.02, 0.05]))
         if ctx.rng.random() < 0.5:      # EINTR choices at random positions
             s = list(s)
-            for _ in range(ctx.rng.randint(1, 6)): s.insert(ctx.rng.randrange(len(s)), '!' + ctx.rng.choice(th))
+            for _ in range(ctx.rng.randint(1, 6)): s.insert(ctx.rng.randrange(len(s)), ctx.rng.choice('!!~') + ctx.rng.choice(th))
             s = ''.join(s)
         out.append((prog, s))
     return out
